@@ -20,7 +20,7 @@
    nlinks and links[] are read from the LIVE table at every iteration, as in the C.  Running out of fuel is the
    distinguished outcome None (the C: unbounded recursion).
 
-   Two variants: Faithful = the code as it is; FixA = the repair proposed in notes/C17.md (the loop over links[] moved
+   Two variants: Old = the code as it is; Cur = the repair proposed in notes/C17.md (the loop over links[] moved
    inside "if (index == 0)").  Error codes: 0 stands for NO_ERROR (-1 in ADF.h); the others are the ADF.h numbers. *)
 From Coq Require Import Arith List Bool Lia.
 From CgnsV Require Import Fuel ListX.
@@ -75,7 +75,7 @@ Definition adfi_open_file (a : adf) (n : nat) (os_ok : bool) : adf * option nat 
   else (mkadf (upd t1 i free_slot) (ledger a) c1, None).                          (* Error_Exit *)
 
 (* ---- ADFI_close_file as a stack machine ---------------------------------------------------------------- *)
-Inductive variant := Faithful | FixA.
+Inductive variant := Old | Cur.
 Inductive frame := FEnter (i : nat) | FLoop (i k : nat).
 Record cm := mkcm { cm_a : adf; cm_stk : list frame; cm_err : nat }.
 
@@ -99,8 +99,8 @@ Definition cm_step (v : variant) (m : cm) : cm + (adf * nat) :=
       if (length (tab a) <=? i) || Nat.eqb (in_use (slot_at a i)) 0
       then inl (mkcm a rest ADF_FILE_NOT_OPENED)
       else match v with
-           | Faithful => inl (mkcm a (FLoop i 0 :: rest) 0)
-           | FixA => if Nat.eqb (in_use (slot_at a i)) 1
+           | Old => inl (mkcm a (FLoop i 0 :: rest) 0)
+           | Cur => if Nat.eqb (in_use (slot_at a i)) 1
                      then inl (mkcm a (FLoop i 0 :: rest) 0)
                      else inl (mkcm (free_if_idle (set_in_use a i (in_use (slot_at a i) - 1))) rest 0)
            end
@@ -329,7 +329,7 @@ Inductive ooutcome :=
 | OLateFail      (* the cgio file is open; cg_version / cgi_read / ... then fails *)
 | OSuccess.
 
-Inductive mvariant := MFaithful | MFixed.
+Inductive mvariant := MOld | MCur.
 
 (* the tail of cg_close after cgio_close_file succeeded *)
 Definition mll_release (m : mll) (i : nat) (h : nat) : mll :=
@@ -349,8 +349,8 @@ Definition cg_open (v : mvariant) (m : mll) (oc : ooutcome) : mll * option nat :
     let fn := length (files m1) + foffset m1 in
     match oc, v with
     | OSuccess, _ => (m1, Some fn)
-    | _, MFaithful => (m1, None)                                           (* return CG_ERROR; nothing undone *)
-    | _, MFixed => (mll_release m1 (length (files m)) h, None)             (* proposed repair: undo as cg_close does *)
+    | _, MOld => (m1, None)                                           (* return CG_ERROR; nothing undone *)
+    | _, MCur => (mll_release m1 (length (files m)) h, None)             (* proposed repair: undo as cg_close does *)
     end
   end.
 
